@@ -64,8 +64,17 @@ def gen_spec(rnd):
     if rnd.random() < .15:
         b = rnd.randint(2, 8)
         fail = list(range(b, b + rnd.choice([1, 3, 6])))
-    return {'kill_latency': rnd.choice([0.0, 0.0005, 0.002]), 'watchers': ws, 'steps': steps, 'spawn_fail': fail,
+    spec = {'kill_latency': rnd.choice([0.0, 0.0005, 0.002]), 'watchers': ws, 'steps': steps, 'spawn_fail': fail,
             'probes': rnd.random() < .5}
+    if rnd.random() < .05:
+        spec['spawn_fail_from'] = rnd.randint(2, 8)          # from then on no process can be created any more
+    if (fail or spec.get('spawn_fail_from')) and rnd.random() < .5:
+        # not only "no such file": EAGAIN (process limit), ETXTBSY (the executable is being replaced), ENOMEM
+        spec['spawn_fail_errno'] = rnd.choice([11, 26, 12, 13])
+    if rnd.random() < .12:
+        # workers that exit by themselves right after they were started (a crash loop)
+        ws[0]['beh'] = [dict(b_, self_exit=[rnd.choice([0.0, 0.05]), 256]) for b_ in ws[0]['beh']]
+    return spec
 
 
 def plan(tier, seed):
